@@ -540,22 +540,28 @@ class Builder:
             mine.append(aid)
 
 
-def operand_key(o):
+def operand_key(o, varname=None):
     if o[0] == "lit":
         return ("lit", json.dumps(lit_value(o[1], o[2]), sort_keys=True))
+    if o[0] == "var" and varname is not None:
+        # sibling threads may reuse a variable name: the two operands are then spelled alike although they denote
+        # different variables, and the implementation's uniqueness constraint compares the spelling
+        return ("var", ("name", varname.get(o[1], o[1])), tuple(o[2]))
     return (o[0], o[1], tuple(o[2]))
 
 
-def composite_key(c):
+def composite_key(c, varname=None):
     deps = []
     for d in c["deps"]:
-        deps.append(("ref", d[1]) if d[0] == "ref" else ("cmp", operand_key(d[1]), d[2], operand_key(d[3])))
+        deps.append(("ref", d[1]) if d[0] == "ref" else ("cmp", operand_key(d[1], varname), d[2], operand_key(d[3], varname)))
     return (c["gate"], tuple(sorted(map(repr, deps))))
 
 
 def has_duplicate_composite(s):
-    """Two checkpoints with the same gate type and the same set of dependencies (after normalising spelling)."""
-    keys = [composite_key(c) for c in s["checkpoints"]]
+    """Two checkpoints with the same gate type and the same set of dependencies (after normalising spelling;
+    variables compared by name, since sibling threads may reuse one)."""
+    varname = {g["id"]: g["var"] for g in s.get("groups", [])}
+    keys = [composite_key(c, varname) for c in s["checkpoints"]]
     return len(keys) != len(set(keys))
 
 
